@@ -117,7 +117,7 @@ def seeded_run(t, cs):
 def case_iso(cs):
     ins.install()
     ins.reset()
-    spec = w2.gen(cs, solvers=False, closeroll=0.4)
+    spec = w2.gen(cs, solvers=False, closeroll=0.4, risk=0.2)
     sig = w2.signature(spec)
     sample = w2.sample_of(spec)
     idx, data, extras = w2.frames_of(spec)
@@ -251,7 +251,7 @@ def child_main(argv):
     out = []
     for j in range(n):
         cs = cs0 + j
-        spec = w2.gen(cs, solvers=False, closeroll=0.4)
+        spec = w2.gen(cs, solvers=False, closeroll=0.4, risk=0.2)
         ins.reset()
         r = w2.run(spec)
         if r.exc is not None:
@@ -281,7 +281,7 @@ def case_hashseed(cs, build):
     sigs = []
     for j in range(BATCH):
         vals = [r[j] for r in runs]
-        spec = w2.gen(cs + j, solvers=False, closeroll=0.4)
+        spec = w2.gen(cs + j, solvers=False, closeroll=0.4, risk=0.2)
         if vals[0].startswith("exc:"):
             if len(set(vals)) == 1:
                 o = common.result(common.OOD, why="run raises (decided by C10)")
